@@ -11,3 +11,17 @@ print("| property | sub-check | tier | bound completed | states | transitions | 
 print("|---|---|---|---|---:|---:|---:|---:|---:|")
 for r in rows:
     print("| " + " | ".join(str(x) for x in r) + " |")
+
+import sys
+if "--write" in sys.argv:
+    # replace the table of section 9 in DESIGN.md
+    p = os.path.join(HERE, "DESIGN.md")
+    lines = open(p).read().split("\n")
+    a = next(i for i, ln in enumerate(lines) if ln.startswith("| property | sub-check | tier | bound completed"))
+    b = a
+    while b < len(lines) and lines[b].startswith("|"):
+        b += 1
+    table = ["| property | sub-check | tier | bound completed | states | transitions | non-trivial | outcomes | wall s |",
+             "|---|---|---|---|---:|---:|---:|---:|---:|"] + ["| " + " | ".join(str(x) for x in r) + " |" for r in rows]
+    open(p, "w").write("\n".join(lines[:a] + table + lines[b:]))
+    print("DESIGN.md section 9 table rewritten:", len(rows), "rows")
